@@ -528,6 +528,74 @@ def slow_reply_case(ctx, version: str, trigger: str, seconds: float) -> None:
                       case)
 
 
+def mutation_during_pending_write_case(ctx, version: str, trigger: str, mutation: str) -> None:
+    """While a write the controller makes for a received line is pending, the APPLICATION changes the registry (deletes the
+    node concerned, re-binds gateway.nodes, clears the node's children); then the write completes.  The step still ends in
+    a message or a library error, and the gateway stays usable."""
+    from ..vloop import LogicalDeadlock, run_virtual
+
+    case = {"kind": "mutation-during-write", "version": version, "trigger": trigger, "mutation": mutation}
+    box: dict = {}
+
+    async def scenario() -> None:
+        gateway, transport, line, wake = await _prepare_step(version, trigger)
+        transport.gate = True
+        transport.lines.append(line)
+        iterator = gateway.listen()
+        task = asyncio.ensure_future(iterator.__anext__())
+        for _ in range(60):
+            await asyncio.sleep(0)
+            if transport.pending or task.done():
+                break
+        box["pending"] = len(transport.pending)
+        if mutation == "delete-node":
+            gateway.nodes.pop(1, None)
+        elif mutation == "rebind-nodes":
+            gateway.nodes = {}
+        elif mutation == "clear-children":
+            if 1 in gateway.nodes:
+                gateway.nodes[1].children.clear()
+        while not task.done():
+            for future, _line, _attempt in list(transport.pending):
+                if not future.done():
+                    future.set_result(False)
+            transport.pending.clear()
+            await asyncio.sleep(0)
+        try:
+            box["result"] = ("yield", await task)
+        except Exception as exc:  # noqa: BLE001
+            box["result"] = ("error", exc)
+        transport.gate = False
+        try:
+            await iterator.aclose()
+        except Exception:  # noqa: BLE001
+            pass
+        from aiomysensors.model.node import Child, Node
+
+        gateway.nodes[1] = Node(1, 17, "2.0", children={0: Child(0, 3, values={2: "stored"}), 1: Child(1, 3)})
+        await _probe(ctx, gateway, transport, wake, case, f"registry changed ({mutation}) while the {trigger} write was pending")
+
+    result, _loop = run_virtual(scenario)
+    ctx.case(("mutation-during-write", version, trigger, mutation), sample=case)
+    if isinstance(result, LogicalDeadlock):
+        ctx.violation("listen-deadlock", f"logical deadlock in {case}", case)
+        return
+    if isinstance(result, BaseException):
+        from ..harness import scenario_exception
+
+        scenario_exception(ctx, result, case, "mutation-during-write")
+        return
+    if not box.get("pending"):
+        ctx.obs("mutation-during-write:no-write-pending:" + trigger)
+    ctx.clause("registry-changed-while-a-write-is-pending")
+    kind, value = box["result"]
+    if kind == "error" and not is_library_error(value):
+        info = exc_info(value)
+        ctx.violation("foreign-exception-" + info["class"], f"the application changed the registry ({mutation}) while the {trigger} "
+                                                            f"write was pending: listen raised {info['class']}({value!s:.60}) in "
+                                                            f"{info.get('raised_in')}", case)
+
+
 def concurrent_cases(ctx) -> None:
     """Listener flushing a sleep buffer while application tasks call send(): every interleaving at the
     Transport.write suspension points (Director, vf.sched) - the exception class escaping listen()."""
@@ -566,7 +634,9 @@ def run_case(ctx, case: dict) -> None:
                 ctx.violation("concurrent-send-foreign-exception-" + err["class"], f"listen raised {err}", case)
         ctx.case(("sched", repr(case["config"]), tuple(case["choices"])))
         return
-    if kind == "interrupted-step":
+    if kind == "mutation-during-write":
+        mutation_during_pending_write_case(ctx, case["version"], case["trigger"], case["mutation"])
+    elif kind == "interrupted-step":
         arun(interrupted_step_case(ctx, case["version"], case["trigger"], case["how"], case["outcome"]))
     elif kind == "slow-reply":
         slow_reply_case(ctx, case["version"], case["trigger"], case["seconds"])
@@ -600,6 +670,14 @@ def run(ctx) -> None:
                     index += 1
                     if ctx.mine(index):
                         slow_reply_case(ctx, version, trigger, seconds)
+        for version in ("1.5", "2.0", "2.2"):
+            for trigger in STEP_TRIGGERS:
+                if trigger in ("flush", "presentation-request") and not version.startswith("2"):
+                    continue
+                for mutation in ("delete-node", "rebind-nodes", "clear-children"):
+                    index += 1
+                    if ctx.mine(index):
+                        mutation_during_pending_write_case(ctx, version, trigger, mutation)
         from .. import harness as _harness
 
         for extra in _harness.unknown_options():
